@@ -70,9 +70,9 @@ type SExec struct {
 	ROProbes               int
 	snaps                  []string
 	punchEver              bool
-	subBlockWO             map[int]bool  // node -> a sub-block (not 4 KiB aligned) write was acknowledged while it was rebuilding (WO)
-	wseq                   map[int]int64 // per race writer: last sequence number used
-	raceLayout             string        // number of race writers (fixed for the case)
+	subBlockWO             map[int]map[int64]bool // node -> blocks hit by a sub-block write acknowledged while it was rebuilding (WO)
+	wseq                   map[int]int64          // per race writer: last sequence number used
+	raceLayout             string                 // number of race writers (fixed for the case)
 }
 
 func (x *SExec) tracef(f string, a ...interface{}) {
@@ -96,7 +96,7 @@ func NewSExec(p SProgram) (*SExec, error) {
 		return nil, err
 	}
 	x := &SExec{St: st, P: p, Mode: make([]types.Mode, p.Nodes), Live: NewImage(int64(p.Blocks) * Blk),
-		subBlockWO: map[int]bool{}, Frozen: map[int]int{}, AttAck: map[int]int{}, AttLog: map[int]int{}, Labels: map[string]int{}, prevRO: true}
+		subBlockWO: map[int]map[int64]bool{}, Frozen: map[int]int{}, AttAck: map[int]int{}, AttLog: map[int]int{}, Labels: map[string]int{}, prevRO: true}
 	for _, n := range st.Nodes {
 		n.StallFor = sRW + 700*time.Millisecond
 	}
@@ -649,7 +649,16 @@ func (x *SExec) doWrite(i int, op SOp) *Fail {
 			if off%Blk != 0 || (off+length)%Blk != 0 {
 				for j := range applied {
 					if modeBefore[j] == types.WO {
-						x.subBlockWO[j] = true
+						if x.subBlockWO[j] == nil {
+							x.subBlockWO[j] = map[int64]bool{}
+						}
+						// only the partially covered first and last block are affected
+						if off%Blk != 0 {
+							x.subBlockWO[j][off/Blk] = true
+						}
+						if (off+length)%Blk != 0 {
+							x.subBlockWO[j][(off+length)/Blk] = true
+						}
 					}
 				}
 			}
@@ -760,7 +769,7 @@ func (x *SExec) doRead(i int, op SOp) *Fail {
 			return sfail("read|served-by-nobody", "read succeeded but no node log shows it", "C04")
 		}
 		if d := x.Live.Diff(buf, off); d != "" {
-			if x.subBlockWO[served] {
+			if x.subBlockHit(served, buf, off) {
 				return sfail("rebuild|sub-block-write-while-rebuilding|promoted-image-differs", fmt.Sprintf("a write that is not 4 KiB aligned was acknowledged while n%d was rebuilding; a read served by it returned: %s", served, d), "C07")
 			}
 			return sfail("read|stale-or-wrong-data", fmt.Sprintf("read served by n%d (model mode %s): %s", served, x.Mode[served], d), "C04", "C02")
@@ -1023,6 +1032,23 @@ func (x *SExec) settleERR() {
 	}
 }
 
+// subBlockHit reports whether the first differing byte lies in a block that
+// received a sub-block write while node j was rebuilding (the known finding).
+func (x *SExec) subBlockHit(j int, got []byte, off int64) bool {
+	m := x.subBlockWO[j]
+	if len(m) == 0 {
+		return false
+	}
+	for i := range got {
+		p := off + int64(i)
+		if x.Live.Indet[p/Sec] || got[i] == x.Live.B[p] {
+			continue
+		}
+		return m[p/Blk]
+	}
+	return false
+}
+
 func sameSet(a, b map[string]bool) bool {
 	if len(a) != len(b) {
 		return false
@@ -1093,7 +1119,7 @@ func (x *SExec) Finish() *Fail {
 				return sfail("rw-replica-unreadable", err.Error(), "C02", "C04")
 			}
 			if d := x.Live.Diff(buf, 0); d != "" {
-				if x.subBlockWO[j] {
+				if x.subBlockHit(j, buf, 0) {
 					return sfail("rebuild|sub-block-write-while-rebuilding|promoted-image-differs", fmt.Sprintf("a write that is not 4 KiB aligned was acknowledged while n%d was rebuilding; its image differs from the acknowledged data: %s", j, d), "C07")
 				}
 				return sfail("rw-replica-image-mismatch", fmt.Sprintf("n%d is RW but its image differs from the acknowledged data: %s", j, d), "C02", "C07", "C04")
@@ -1570,7 +1596,7 @@ func (x *SExec) doRebuild(i int, op SOp) *Fail {
 		return sfail("rebuild|target-unreadable", err.Error(), "C07")
 	}
 	if dd := x.Live.Diff(bb, 0); dd != "" {
-		if x.subBlockWO[dst] {
+		if x.subBlockHit(dst, bb, 0) {
 			return sfail("rebuild|sub-block-write-while-rebuilding|promoted-image-differs", fmt.Sprintf("a write that is not 4 KiB aligned was acknowledged while n%d was rebuilding; the promoted replica's image differs from the acknowledged data: %s", dst, dd), "C07")
 		}
 		return sfail("rebuild|promoted-image-differs", fmt.Sprintf("promoted n%d does not hold every acknowledged write: %s (source n%d: %q)", dst, dd, src, x.Live.Diff(ba, 0)), "C07")
@@ -1737,7 +1763,7 @@ finished:
 		return sfail("rebuild|target-unreadable", err.Error(), "C07")
 	}
 	if dd := x.Live.Diff(bb, 0); dd != "" {
-		if x.subBlockWO[n] {
+		if x.subBlockHit(n, bb, 0) {
 			return sfail("rebuild|sub-block-write-while-rebuilding|promoted-image-differs", fmt.Sprintf("a write that is not 4 KiB aligned was acknowledged while n%d was rebuilding; the promoted replica's image differs from the acknowledged data: %s", n, dd), "C07")
 		}
 		return sfail("rebuild|promoted-image-differs", fmt.Sprintf("promoted n%d does not hold every acknowledged write: %s", n, dd), "C07")
